@@ -646,7 +646,7 @@ func (fi *FuncInfo) callPts(c *ssa.Call, set func(ssa.Value, []PVal), changed *b
 		return // already reported by the structural assertions
 	}
 	if sum == nil {
-		fi.A.problem(fi.Fn, c, "call to %s: no summary", callee.String())
+		fi.A.problem(fi.Fn, c, "call to %s, an external callee without an effect summary (it takes or returns pointers: it may read, write or retain our memory)", callee.String())
 		return
 	}
 	if once != nil {
@@ -1363,7 +1363,7 @@ func (a *Analysis) external(f *ssa.Function) *Summary {
 	case !hasPtr:
 		// a function of scalars only cannot touch our memory
 	default:
-		a.addProblem("UNDECIDED external callee without an effect summary: " + name)
+		// reported at each call site (scoped to the calling function)
 		s = nil
 	}
 	if s != nil {
@@ -1381,7 +1381,7 @@ func (a *Analysis) asmSummary(f *ssa.Function) *Summary {
 		return s
 	}
 	for _, u := range as.Undecided {
-		a.addProblem("UNDECIDED asm " + a.P.RelFile(u))
+		a.addProblemFn(f, "UNDECIDED asm "+a.P.RelFile(u))
 	}
 	if as.NParams != len(f.Params) {
 		a.problem(f, nil, "assembly frame declares %d argument words, Go declaration has %d parameters", as.NParams, len(f.Params))
